@@ -1084,9 +1084,11 @@ func execQ(a map[string]string) vlib.Res {
 	if ageMs := atoiD(a["age"], 0); ageMs > 0 {
 		serveAge = time.Duration(ageMs) * time.Millisecond
 	}
+	slow := false
 	for _, p := range order {
 		c0 := live.Stub.Calls.Load()
 		var prev []byte
+		t0 := time.Now()
 		for i := 0; i < rep; i++ {
 			pkt := s.build(markers[p], prev, clientCookie)
 			q0 := live.Stub.Calls.Load()
@@ -1106,6 +1108,11 @@ func execQ(a map[string]string) vlib.Res {
 			}
 		}
 		calls[p] = live.Stub.Calls.Load() - c0
+		// the per-entry limiter refills in real time (erl tokens per second): the drop pattern of a
+		// path is only meaningful while its serves fit well inside one refill interval
+		if liveC.erl > 0 && time.Since(t0) > time.Second/time.Duration(4*liveC.erl) {
+			slow = true
+		}
 	}
 
 	serveAge = 0
@@ -1221,6 +1228,11 @@ func execQ(a map[string]string) vlib.Res {
 		dist = append([]string{tags}, dist...)
 	}
 	tags = strings.Join(dist, ",")
+	if slow && verdict != "ok" {
+		// (a loaded machine: a token came back mid-op; the oracle's premise does not hold — not judged)
+		verdict = "-"
+		tags = strings.TrimPrefix(tags+",slow-limiter-op", ",")
+	}
 	impl := fmt.Sprintf("raw=%s msg=%s inline=%s/%s up=%d,%d,%d fu=%d,%d,%d", cls(replies[0]), cls(replies[1]), cls(replies[2]), inl(replies[2]),
 		calls[0], calls[1], calls[2], fcalls[0], fcalls[1], fcalls[2])
 	return vlib.Res{Impl: impl, Oracle: verdict, Tags: tags}
